@@ -7,20 +7,28 @@
 // response-trailer position (and in all three at once)
 //
 //	x how they are attached (one call, one call per value, SetHeader+SendHeader,
-//	  stream methods or grpc.SetHeader/SendHeader/SetTrailer(ctx), before or after the responses)
+//	  stream methods or grpc.SetHeader/SendHeader/SetTrailer(ctx), before or after the responses;
+//	  metadata.NewOutgoingContext or AppendToOutgoingContext)
 //	x RPC kind {unary, client-stream, server-stream, bidi}
 //	x handler outcome {nil, NotFound status}
 //	x {0,1} response messages (server-stream, bidi)
 //	x Header() before the first RecvMsg / after the end of the stream
 //	x 0..2 grpc.Header and grpc.Trailer call options
 //	x transport {in-process; HTTP on a recorder; HTTP with the header blocks pushed
-//	  through net/http's own writer and parser; HTTP over a loopback socket}
+//	  through net/http's own writer and parser; HTTP over a loopback socket;
+//	  HTTP on a recorder with the end-of-body indication held back (streams)}
 //
-// through the real channels and servers. Oracle: every pair the caller attached
-// is in the handler's incoming metadata, every pair the handler set is in
-// Header() / Trailer() and in every option target: all values, in order, bytes
-// exact; other keys are ignored (a transport may add its own). The same oracle is
-// run against grpc-go over bufconn; a disagreement there is a checker error (exit 2).
+// through the real channels and servers (grammar.go, run.go). Oracle (oracle.go):
+// every pair the caller attached is in the handler's incoming metadata, every
+// pair the handler set is in Header() / Trailer() and in every option target:
+// all values, in order, bytes exact; other keys are ignored (a transport may
+// add its own). The same oracle is run against grpc-go over bufconn; a
+// disagreement there is a checker error (exit 2).
+//
+// Fingerprints: every violating case is reduced (deterministic greedy
+// minimisation, simplest payload / baseline parameters first) to the simplest
+// member of the grammar showing the same damage, so one root cause gives one
+// fingerprint: C03|transports|kinds|position|payload|damage[|parameters that matter].
 //
 // The ordering / interleaving half of C03 belongs to engine E1.
 package main
@@ -47,6 +55,7 @@ import (
 type violating struct {
 	c    Case
 	pos  []string
+	els  map[string][]string // per position: elements of the verdict as first observed
 	what string
 }
 
@@ -92,8 +101,9 @@ func mdKeys(c Case, rs *runState, obs observation) string {
 	return "call: " + errText(obs.callErr) + "; " + strings.Join(parts, "; ")
 }
 
-func runUnit(w *worker, u unit, transports []string, wantSample bool) unitResult {
+func runUnit(w *worker, u unit, transports []string, sampleAt int) unitResult {
 	var r unitResult
+	passing := 0
 	expand(u, transports, func(c Case) {
 		rs, obs := w.run(c)
 		fs := check(c, rs, obs)
@@ -123,9 +133,10 @@ func runUnit(w *worker, u unit, transports []string, wantSample bool) unitResult
 			if !reached {
 				r.unreached = append(r.unreached, describe(c, rs, obs, fs))
 			}
-			if wantSample {
+			if sampleAt >= 0 && passing <= sampleAt {
 				r.sample = map[string]interface{}{"case": c.String(), "observed": mdKeys(c, rs, obs)}
 			}
+			passing++
 			return
 		}
 		v := violating{c: c, what: describe(c, rs, obs, fs)}
@@ -133,10 +144,10 @@ func runUnit(w *worker, u unit, transports []string, wantSample bool) unitResult
 			v.pos = []string{"panic"}
 			v.what += "; PANIC: " + pan
 		} else {
-			seen := map[string]bool{}
+			v.els = map[string][]string{}
 			for _, f := range fs {
-				if !seen[f.Pos] {
-					seen[f.Pos] = true
+				if v.els[f.Pos] == nil {
+					v.els[f.Pos] = elements(f.Pos, fs)
 					v.pos = append(v.pos, f.Pos)
 				}
 			}
@@ -251,7 +262,11 @@ func main() {
 				if refFor(us[i]) {
 					ts = append(append([]string(nil), libTransports...), refTransport)
 				}
-				results[i] = runUnit(w, us[i], ts, i%sampleEvery == sampleEvery/2)
+				sampleAt := -1
+				if i%sampleEvery == sampleEvery/2 {
+					sampleAt = (i * 31) % 211 // a different member of the unit each time
+				}
+				results[i] = runUnit(w, us[i], ts, sampleAt)
 			}
 		}()
 	}
@@ -296,7 +311,7 @@ func main() {
 	}
 
 	// ---- one fingerprint per root cause: minimise every violating case
-	mz := &minimiser{w: workers[nw], memo: map[string]bool{}}
+	mz := &minimiser{w: workers[nw], memo: map[string]verdict{}}
 	type group struct {
 		fp    string
 		rep   Case
@@ -319,10 +334,17 @@ func main() {
 				groups[fp].count++
 				continue
 			}
-			if !mz.fails(v.c, pos) {
-				// the violation did not reproduce on a second run of the same case
+			target := v.els[pos]
+			m, reproducible := mz.minimise(v.c, pos, target)
+			if !reproducible {
+				// the violation did not show again when the case was run again: timing-dependent. One
+				// fingerprint per transport family, position and kind of damage (the inputs do not matter).
 				unstable++
-				fp := fmt.Sprintf("C03|%s|%s|%s|unstable|%s", v.c.Transport, v.c.Kind, pos, kvString(*posMap(&v.c, pos)))
+				fam := "http"
+				if v.c.Transport == "inproc" {
+					fam = "inproc"
+				}
+				fp := fmt.Sprintf("C03|%s|%s|not-reproducible|%s", fam, pos, strings.Join(target, ","))
 				if groups[fp] == nil {
 					groups[fp] = &group{fp: fp, rep: v.c, pos: pos, first: v}
 					order = append(order, fp)
@@ -330,15 +352,18 @@ func main() {
 				groups[fp].count++
 				continue
 			}
-			m := mz.minimise(v.c, pos)
-			ck := pos + "||" + m.key()
+			ck := pos + "|" + strings.Join(target, ",") + "|" + m.key()
 			fp, ok := minCache[ck]
 			var repCase Case
 			if !ok {
 				var good bool
-				fp, repCase, good = mz.fingerprint(m, pos)
+				fp, repCase, good = mz.fingerprint(m, pos, target)
 				if !good {
-					fp, repCase = fmt.Sprintf("C03|%s|%s|%s|unstable|%s", v.c.Transport, v.c.Kind, pos, kvString(*posMap(&v.c, pos))), v.c
+					fam := "http"
+					if v.c.Transport == "inproc" {
+						fam = "inproc"
+					}
+					fp, repCase = fmt.Sprintf("C03|%s|%s|not-reproducible|%s", fam, pos, strings.Join(target, ",")), v.c
 				}
 				minCache[ck] = fp
 				if groups[fp] == nil {
@@ -376,17 +401,19 @@ func main() {
 		"the hang guard (30 s without progress) uses the wall clock; nothing else does",
 	}
 	os.Exit(rep.Finish("exploration", map[string]interface{}{
-		"evaluations":                  evals,
-		"evaluations_per_part":         perPart,
-		"units":                        len(us),
-		"distinct_nontrivial":          len(distinct),
-		"violating_cases":              len(viol),
-		"minimiser_runs":               mz.runs,
-		"unstable":                     unstable,
-		"rule":                         "a case (transport, kind, outcome, nresp, Header() position, option count, three maps with their attach modes) is non-trivial when the real handler was reached and at least one application pair was in play (caller attached request metadata, or a SetHeader/SendHeader/SetTrailer call of the handler returned nil), i.e. the metadata copy / encode / fan-out path ran; distinct by all case parameters (FNV-64 of the case key); reference-transport (grpc-go) runs are counted in evaluations but not here",
-		"samples":                      samples,
-		"exhaustive":                   true,
-		"grammar":                      fmt.Sprintf("one-key maps: 5 keys x value lists of length 1..%d over 5 values x all attach modes x 3 positions; two-key maps: 10 key pairs x 25 value pairs and 5 five-key maps x attach modes (all=%v) x 3 positions; %d^3 three-position triples; each x 4 kinds x ok/fail x nresp x Header() position x 0..2 options x 4 transports", maxLen, multiAll, tripleSet),
+		"evaluations":                    evals,
+		"evaluations_per_part":           perPart,
+		"units":                          len(us),
+		"distinct_nontrivial":            len(distinct),
+		"violating_cases":                len(viol),
+		"minimiser_runs":                 mz.runs,
+		"not_reproducible":               unstable,
+		"flaky_minimiser_verdicts":       mz.flaky,
+		"gate_timed_out":                 gateTimedOut.Load(),
+		"rule":                           "a case (transport, kind, outcome, nresp, Header() position, option count, three maps with their attach modes) is non-trivial when the real handler was reached and at least one application pair was in play (caller attached request metadata, or a SetHeader/SendHeader/SetTrailer call of the handler returned nil), i.e. the metadata copy / encode / fan-out path ran; distinct by all case parameters (FNV-64 of the case key); reference-transport (grpc-go) runs are counted in evaluations but not here",
+		"samples":                        samples,
+		"exhaustive":                     true,
+		"grammar":                        fmt.Sprintf("one-key maps: 5 keys x value lists of length 1..%d over 5 values x all attach modes x 3 positions; two-key maps: 10 key pairs x 25 value pairs and 5 five-key maps x attach modes (all=%v) x 3 positions; %d^3 three-position triples; each x 4 kinds x ok/fail x nresp x Header() position x 0..2 options x 5 transports (inproc, http-rec, http-wire, http-net; http-gate for the stream kinds)", maxLen, multiAll, tripleSet),
 		"reference_validated_on_grpc_go": true,
 	}, assumptions))
 }
